@@ -16,162 +16,6 @@ def must(cfg, pred):
     return cfg.must_pass_after(cfg.entry, pred)
 
 
-def r02_1(rep, mod, rule='R02.1'):
-    f = find_def(mod, 'Specification.changed')
-    site = 'Specification.changed'
-    cfg = cfg_of(f)
-    # implied cleared
-    impl = resolve_local(f, ast.Name(id='implied', ctx=ast.Load()))
-    clear = any_pred(pred_of('implied.clear()'), pred_of('self._implied.clear()'),
-                     pred_of('self._implied = {}', 'exec'),
-                     pred_of('implied = self._implied = {}', 'exec'))
-    ok = must(cfg, clear) and (match('self._implied', impl) is not None or
-                               not find_all(f, 'implied.clear()'))
-    rep.check(rule, site, ok,
-              'the implied set is emptied on every path before being refilled'
-              if ok else {'missing': 'implied.clear()',
-                          'path': witness_path(cfg, cfg.entry, clear)},
-              construct='clear', node=f)
-    # ancestors = self._calculate_sro()   (possibly wrapped in tuple()/list())
-    forms = ['$a = self._calculate_sro()', '$a = tuple(self._calculate_sro())',
-             '$a = list(self._calculate_sro())']
-    calc = any_pred(*[pred_of(p, 'exec') for p in forms])
-    okc = must(cfg, calc)
-    rep.check(rule, site, okc,
-              'the resolution order is recomputed (self._calculate_sro()) on '
-              'every path' if okc else
-              {'missing': 'self._calculate_sro()',
-               'path': witness_path(cfg, cfg.entry, calc)},
-              construct='recompute', node=f)
-    anc = None
-    wrapped = False
-    for n in walk_local(f):
-        if not isinstance(n, ast.Assign):
-            continue
-        for k, p in enumerate(forms):
-            e = match(p, n, 'exec')
-            if e is not None and isinstance(e['a'], ast.Name):
-                anc = e['a'].id
-                wrapped = k == 1
-    if anc is None:
-        rep.check(rule, site, False, 'result of _calculate_sro() is not bound to a name',
-                  construct='source', node=f)
-        return None
-    sro_forms = ['self.__sro__ = tuple(%s)' % anc]
-    if wrapped:
-        sro_forms.append('self.__sro__ = %s' % anc)
-    sro = any_pred(*[pred_of(p, 'exec') for p in sro_forms])
-    oksro = must(cfg, sro)
-    rep.check(rule, site, oksro,
-              '__sro__ = tuple(<the computed order>) on every path',
-              construct='sro', node=f)
-    iro_pats = ['self.__iro__ = tuple([$x for $x in %s if isinstance($x, InterfaceClass)])' % anc,
-                'self.__iro__ = tuple($x for $x in %s if isinstance($x, InterfaceClass))' % anc]
-    iro = any_pred(*[pred_of(p, 'exec') for p in iro_pats])
-    okiro = must(cfg, iro)
-    rep.check(rule, site, okiro,
-              '__iro__ = the InterfaceClass members of the same computed order, '
-              'in order, on every path', construct='iro', node=f)
-    # implied loop: unfiltered
-    lps = [lp for lp in walk_local(f) if isinstance(lp, ast.For)
-           and isinstance(iter_polarity(lp.iter)[0], ast.Name)
-           and iter_polarity(lp.iter)[0].id == anc]
-    good = None
-    for lp in lps:
-        v = lp.target.id if isinstance(lp.target, ast.Name) else None
-        if v is None:
-            continue
-        stores = [s for s in lp.body if isinstance(s, ast.Assign)
-                  and match('implied[%s]' % v, s.targets[0]) is not None]
-        exits = [n for n in walk_local(lp) if isinstance(
-            n, (ast.Break, ast.Return, ast.Continue))]
-        anystore = find_all(lp, 'implied[%s] = $v' % v, 'exec')
-        if anystore:
-            good = (lp, bool(stores) and not exits, stores, exits)
-    if good is None:
-        rep.check(rule, site, False,
-                  'no loop over the computed order storing implied[ancestor]',
-                  construct='implied', node=f)
-    else:
-        lp, ok, stores, exits = good
-        okm = must(cfg, lambda n: n.ast is lp)
-        rep.check(rule, site, ok and okm,
-                  'every member of the computed order is recorded in the implied '
-                  'set unconditionally (unconditional store: %s, early exits: %d, '
-                  'on every path: %s)' % (bool(stores), len(exits), okm),
-                  construct='implied', node=lp)
-    # v_attrs reset
-    va = pred_of('self._v_attrs = None', 'exec')
-    rep.check(rule, site, must(cfg, va),
-              'the attribute memo _v_attrs is dropped on every path',
-              construct='v_attrs', node=f)
-    return anc
-
-
-def r02_2(rep, mod, rule='R02.2'):
-    f = find_def(mod, 'Specification.changed')
-    site = 'Specification.changed'
-    cfg = cfg_of(f)
-    found = None
-    for lp in walk_local(f):
-        if not isinstance(lp, ast.For) or not isinstance(lp.target, ast.Name):
-            continue
-        v = lp.target.id
-        calls = find_all(lp, '%s.changed($$a)' % v)
-        if calls:
-            found = (lp, v, calls)
-    if found is None:
-        rep.check(rule, site, False, 'no loop notifying the dependents',
-                  construct='notify', node=f)
-        return
-    lp, v, calls = found
-    it = lp.iter
-    snap = isinstance(it, ast.Call) and isinstance(it.func, ast.Name) and \
-        it.func.id in ('tuple', 'list') and len(it.args) == 1
-    src = it.args[0] if snap else it
-    oksrc = (match('self._dependents.keys() if self._dependents else ()', src) is not None
-             or match('self._dependents.keys()', src) is not None
-             or match('self._dependents', src) is not None
-             or match('self.dependents.keys()', src) is not None
-             or match('self.dependents', src) is not None
-             or match('self._dependents or ()', src) is not None)
-    rep.check(rule, site, oksrc,
-              'notifies the keys of the dependents table: `%s`' % norm_src(src),
-              construct='source', node=lp)
-    rep.check(rule, site, snap,
-              'iterates a snapshot (tuple/list) of the dependents: a dependent\'s '
-              'changed() may unsubscribe it (lookup objects do), and mutating '
-              'the live mapping during iteration aborts the propagation: `%s`'
-              % norm_src(it), construct='snapshot', node=lp)
-    c = calls[0][0]
-    uncond = isinstance(c.parent, ast.Expr) and c.parent.parent is lp
-    exits = [n for n in walk_local(lp) if isinstance(
-        n, (ast.Break, ast.Return, ast.Continue))]
-    okargs = match('%s.changed(originally_changed)' % v, c) is not None
-    rep.check(rule, site, uncond and not exits and okargs,
-              'every dependent is notified unconditionally with the original '
-              'cause (unconditional %s, early exits %d, argument %s)'
-              % (uncond, len(exits), okargs), construct='all', node=lp)
-    ln = cfg.node_of(lp)
-    okpath = must(cfg, lambda n: n is ln)
-    rep.check(rule, site, okpath,
-              'the notification loop is reached on every path (no early return '
-              'that skips dependents)' if okpath else
-              {'path': witness_path(cfg, cfg.entry, lambda n: n is ln)},
-              construct='reached', node=lp)
-    # ordering: own state first
-    sro = pred_of('self.__sro__ = $v', 'exec')
-    iro = pred_of('self.__iro__ = $v', 'exec')
-    okdom = cfg.dominated_by(ln, sro) and cfg.dominated_by(ln, iro)
-    impl = [n for n in cfg.nodes if n.ast is not None and n.kind == 'iter'
-            and find_all(n.ast, 'implied[$k] = $v', 'exec')]
-    okdom = okdom and all(cfg.dominated_by(ln, lambda n, x=x: n is x) for x in impl) \
-        and bool(impl)
-    rep.check(rule, site, okdom,
-              'own __sro__/__iro__/implied are settled before dependents are '
-              'told (they read their bases\' __sro__)', construct='order', node=lp)
-
-
 def r02_3(rep, mod, rule='R02.3'):
     cls = find_def(mod, 'Specification')
     f = None
@@ -244,32 +88,6 @@ def r02_3(rep, mod, rule='R02.3'):
               must(cfgi, pred_of('self.__bases__ = tuple(bases)', 'exec')),
               'the constructor assigns the bases through the property',
               construct='init', node=init)
-    # subscribe / unsubscribe counting
-    sub = find_def(mod, 'Specification.subscribe')
-    d = shared.params(sub)[1]
-    ok = bool(find_all(sub, 'self._dependents[%s] = self.dependents.get(%s, 0) + 1'
-                       % (d, d), 'exec'))
-    rep.check(rule, 'Specification.subscribe', ok,
-              'counts one more subscription of the dependent', construct='count',
-              node=sub)
-    un = find_def(mod, 'Specification.unsubscribe')
-    d = shared.params(un)[1]
-    dec = find_all(un, 'n -= 1', 'exec') + find_all(un, 'n = n - 1', 'exec')
-    ifs = [n for n in walk_local(un) if isinstance(n, ast.If)
-           and (match('not n', n.test) is not None or match('n == 0', n.test) is not None)]
-    ok = len(dec) == 1 and len(ifs) == 1
-    if ok:
-        i = ifs[0]
-        ok = any(find_all(s, 'del self.dependents[%s]' % d, 'exec') or
-                 find_all(s, 'del self._dependents[%s]' % d, 'exec') for s in i.body) \
-            and any(find_all(s, 'self.dependents[%s] = n' % d, 'exec') or
-                    find_all(s, 'self._dependents[%s] = n' % d, 'exec') for s in i.orelse)
-        n0 = [x for x in walk_local(un) if isinstance(x, ast.Assign)
-              and match('n = self._dependents[%s]' % d, x, 'exec') is not None]
-        ok = ok and len(n0) == 1
-    rep.check(rule, 'Specification.unsubscribe', ok,
-              'decrements the count; removes the dependent exactly at zero',
-              construct='count', node=un)
 
 
 def r02_4(rep, repo, rule='R02.4'):
@@ -379,40 +197,11 @@ def r02_5(rep, mod, rule='R02.5'):
     rep.check(rule, 'SpecificationBase.__call__',
               v is not None and dotted(v) == 'isOrExtends',
               '__call__ = isOrExtends', node=sb)
-    f = find_def(mod, 'Specification.extends')
-    ps = shared.params(f)
-    i, s = ps[1], ps[2]
-    rets = [n for n in walk_local(f) if isinstance(n, ast.Return)]
-    pats = ['%s in self._implied and (not %s or self != %s)' % (i, s, i),
-            '%s in self._implied and (self != %s or not %s)' % (i, i, s)]
-    ok = len(rets) == 1 and any(match(p, rets[0].value) is not None for p in pats)
-    dflt = [norm_src(d) for d in f.args.defaults]
-    rep.check(rule, 'Specification.extends', ok and dflt == ['True'],
-              'returns %s (strict default %s)' % (
-                  [norm_src(r.value) for r in rets], dflt), node=f)
 
 
 def r02_6(rep, mod, rule='R02.6'):
     f = find_def(mod, 'Specification._calculate_sro')
     site = 'Specification._calculate_sro'
-    call = find_all(f, 'self._do_calculate_ro(base_mros={$b: $b.__sro__ for $b in self.__bases__})')
-    rep.check(rule, site, len(call) == 1,
-              'the order is computed from the CURRENT __sro__ of every current '
-              'base', construct='bases', node=f)
-    ifs = [n for n in f.body if isinstance(n, ast.If)]
-    ok = False
-    detail = 'no root-last adjustment found'
-    for i in ifs:
-        if match('root is not None and sro and sro[-1] is not root', i.test) is not None:
-            filt = find_all(i, 'sro = [$x for $x in sro if $x is not root]', 'exec')
-            app = find_all(i, 'sro.append(root)', 'exec')
-            root = resolve_local(f, ast.Name(id='root', ctx=ast.Load()))
-            ok = bool(filt) and bool(app) and match('self._ROOT', root) is not None
-            detail = ('when the root is not already last it is removed wherever '
-                      'it is and appended (filter %s, append %s)' % (bool(filt), bool(app)))
-    rets = [n for n in walk_local(f) if isinstance(n, ast.Return)]
-    ok = ok and len(rets) == 1 and match('sro', rets[0].value) is not None
-    rep.check(rule, site, ok, detail, construct='root-last', node=f)
     v = class_attr_assign(find_def(mod, 'Specification'), '_do_calculate_ro')
     rep.check(rule, site, v is not None and dotted(v) == 'calculate_ro',
               '_do_calculate_ro is ro.ro', construct='ro', node=f)
@@ -445,11 +234,15 @@ def run(rep):
     rep.decline('none: by induction on the longest path the rules above give '
                 'the behaviour (argument in DESIGN.md section 3, C02), but the '
                 'induction itself is not machine-checked')
-    r02_1(rep, mod)
-    r02_2(rep, mod)
+    from . import specsem
+    specsem.changed_recompute(rep, mod, 'R02.1')
+    specsem.changed_notify(rep, mod, 'R02.2')
     r02_3(rep, mod)
+    specsem.subscription_counting(rep, mod, 'R02.3')
     r02_4(rep, repo)
     r02_5(rep, mod)
+    specsem.extends_table(rep, mod, 'R02.5')
     r02_6(rep, mod)
+    specsem.calculate_sro(rep, mod, 'R02.6')
     from . import cside
     cside.c02(rep)
